@@ -1,0 +1,28 @@
+// Copyright 2025 BINARY Members
+//
+// Licensed under the Apache License, Version 2.0 (the "License");
+// you may not use this file except in compliance with the License.
+// You may obtain a copy of the License at
+//
+//     http://www.apache.org/licenses/LICENSE-2.0
+//
+// Unless required by applicable law or agreed to in writing, software
+// distributed under the License is distributed on an "AS IS" BASIS,
+// WITHOUT WARRANTIES OR CONDITIONS OF ANY KIND, either express or implied.
+// See the License for the specific language governing permissions and
+// limitations under the License.
+
+//go:build !verif
+
+// Package vhook holds the observation points used by the external verification harness.
+// Without the build tag "verif" every function is empty and the calls compile to nothing.
+package vhook
+
+// FS is called immediately before a file system operation.
+func FS(op, path string, n int) {}
+
+// FSDone is called immediately after the file system operation announced by FS.
+func FSDone(op, path string, n int) {}
+
+// Event is called at a logical step of the engine.
+func Event(name string, args ...any) {}
